@@ -145,6 +145,10 @@ func Render(toks []Tok, mode int, r *core.Rand, stats map[string]int) []byte {
 	return b
 }
 
+// NoTrailing suppresses the optional trivia after the last token (set by single-threaded callers
+// around a Render call; the formatter check needs layouts that differ only between tokens).
+var NoTrailing bool
+
 // RenderPos is Render that also returns the byte offset at which each token starts.
 func RenderPos(toks []Tok, mode int, r *core.Rand, stats map[string]int) ([]byte, []int) {
 	l := &layouter{r: r, mode: mode, Stats: stats}
@@ -152,7 +156,8 @@ func RenderPos(toks []Tok, mode int, r *core.Rand, stats map[string]int) ([]byte
 	var out bytes.Buffer
 	prev := ""
 	first := true
-	for _, tk := range toks {
+	for ti, tk := range toks {
+		lastCarrier := NoTrailing && ti == len(toks)-1 && tk.S == ""
 		switch tk.Gap {
 		case GapNone:
 		case GapNeedWS:
@@ -172,8 +177,11 @@ func RenderPos(toks []Tok, mode int, r *core.Rand, stats map[string]int) ([]byte
 			if nl == "\r" {
 				nl = "\r\n"
 			}
+			if lastCarrier {
+				nl = "\n"
+			}
 			out.WriteString(nl)
-			if mode != LayCanon && mode != LayMinimal {
+			if mode != LayCanon && mode != LayMinimal && !lastCarrier {
 				out.WriteString(l.free(true))
 			}
 			l.stat("after-heredoc", "newline")
@@ -202,7 +210,7 @@ func RenderPos(toks []Tok, mode int, r *core.Rand, stats map[string]int) ([]byte
 		first = false
 	}
 	// trailing trivia (attached to the end token)
-	if mode != LayCanon && mode != LayMinimal && r.Chance(1, 3) {
+	if mode != LayCanon && mode != LayMinimal && r.Chance(1, 3) && !NoTrailing {
 		out.WriteString(l.free(true))
 	}
 	return out.Bytes(), offs
